@@ -22,8 +22,10 @@ CONVERTERS = [
     [],   # a resolver over an empty converter knows no prefix: every request answers 422
     # URI prefixes without an authority part; the CURIE prefix 'urn' is NOT registered although 'urn:lsid:' is a URI prefix
     [mrec("lsid", "urn:lsid:", ["ls"]), mrec("t", "/terms/"), mrec("GO", "http://go/")],
+    # prefixes spelled like paths a web framework may serve on its own (Flask's /static/<path>, FastAPI's /docs, /redoc, /openapi.json)
+    [mrec("static", "http://s/", ["docs"]), mrec("openapi.json", "http://o/", ["redoc"])],
 ]
-UNKNOWN = ["zz", "Go", "urn"]
+UNKNOWN = ["zz", "Go", "urn", "static", "docs", "favicon.ico"]
 SEGMENTS = ["1", "ab", "10.1", "x_y", "a:b", "a:b:c", ":5", "1::2", "5:", "lsid:7"]   # the last three: leading / doubled / trailing delimiter
 DELIMS = [":", "/"]
 SAFE_PUNCT = list("-._~!$&'()*+,;=:@")
@@ -42,7 +44,7 @@ def units(tier, seed):
     us = []
     for ci in range(len(CONVERTERS)):
         for d in DELIMS:
-            mine = ids if ci < 3 else [i for i in ids if i.count("/") <= 1]   # the empty and the URN converter: <= 2 segments
+            mine = ids if ci < 3 else [i for i in ids if i.count("/") <= 1]   # the empty, the URN and the framework-path converter: <= 2 segments
             for ch in chunks(mine, (8 if tier == "quick" else 32) if ci < 3 else 2):
                 us.append({"conv": ci, "delim": d, "ids": ch})
     us += [{"kind": "shared", "delim": d} for d in DELIMS]
@@ -105,7 +107,7 @@ def apps(ci, d):
         import flask
         from curies.resolver_service import get_fastapi_router, get_flask_blueprint
 
-        fapp = flask.Flask("mounted")
+        fapp = flask.Flask("mounted", static_folder=None)   # the host application decides about its own routes; a bare one has none
         fapp.register_blueprint(get_flask_blueprint(conv))
         sapp = fastapi.FastAPI()
         sapp.include_router(get_fastapi_router(conv))
